@@ -680,6 +680,37 @@ def r8(repo, res):
         res.ob("C17.R8", rf, rf, got == want,
                expected=f"gene {g}: " + ("not in the archive: rejected as invalid dump" if g == "ABSENT" else "the reader restores that gene's dump, not a sibling's"),
                found=str(got), clause="for every gene contained in the archive", key=f"archive-read:{g}")
+    # an input file whose name holds a gene name as a dot-delimited part (S1.G.bam), members listed with the other genes' dumps first
+    prefix2 = scratch + "/S1.G"
+    files.clear()
+    try:
+        for g in ("G", "G3"):
+            me = Obj(gene=Obj(name=g, genome="hg38"), profile=Obj(cn_region=None), name=f"S-{g}", _dump_cn={1: 1}, _fusion_counter={}, _indel_sites={}, phases={})
+            k_, v_, calls_, _, _ = fold_sample_init(repo, "sam", prefix2, gene_name=g)
+            prefs = [c_[1][0] for c_ in calls_ if c_[0] == "_dump_alignments"]
+            if len(prefs) != 1:
+                return
+            Lifted(wf, funcs=io)(me, prefs[0], {1: [(g, 1)]}, {})
+    except (Unfoldable, Raised) as e:
+        res.err("C17.R8", f"dump writer outside the folding language: {e}")
+        return
+    members2 = {"./" + n[len(scratch) + 1:]: h for n, h in files.items() if n.startswith(scratch + "/")}
+    for g in ("G", "G3"):
+        own = [m_ for m_ in members2 if m_.endswith(f".{g}.dump")]
+        ordered = {m_: members2[m_] for m_ in sorted(members2, key=lambda m_: (m_ in own, m_))}   # this gene's own dump comes last
+        io["tarfile.open"] = lambda path, mode="r", o_=ordered: Tar(o_)
+        me2 = Obj(gene=Obj(name=g), profile=None, name=None, _dump_cn=None, _fusion_counter=None, _indel_sites=None, phases=None)
+        try:
+            back = Lifted(rf, funcs=io)(me2, "out/DBG.tar.gz")
+            got = (me2.name, back[0] if isinstance(back, tuple) else back)
+        except Unfoldable as e:
+            res.err("C17.R8", f"dump reader outside the folding language: {e}")
+            return
+        except Raised as e:
+            got = f"raises {e.kind}"
+        res.ob("C17.R8", rf, rf, got == (f"S-{g}", {1: [(g, 1)]}),
+               expected=f"input named S1.G.bam, gene {g}, members {list(ordered)}: the reader restores that gene's own dump",
+               found=str(got), clause="for every gene contained in the archive", key=f"archive-read:gene-in-file-name:{g}")
 
 
 def run(repo, res):
@@ -757,6 +788,8 @@ MUTANTS = [
          old='self._dump_alignments(f"{debug}.{gene.name}", norm, muts)', new='self._dump_alignments(f"{debug}.{gene.name}", norm, {})'),
     dict(name="R4 evidence never built from the loaded tables", module="sam", expect=["C17.R4", "C16.R6"],
          old="            self._make_coverage(norm, muts)\n            if self.kind", new="            if self.kind"),
+    dict(name="R8 member matched by a dot-delimited gene name anywhere in it (seeded X4_4 shape)", module="sam", expect=["C17.R8", "C17.R4"],
+         old='if i.endswith(f".{self.gene.name}.dump")]', new='if i.endswith(".dump") and f".{self.gene.name}." in i]'),
     dict(name="R8 debug run skipped", module="__main__", expect="C17.R8",
          old="                run(prefix)\n", new="                pass\n"),
     dict(name="benign: archive only when the run did not crash", module="__main__", kind="benign",
